@@ -7,9 +7,12 @@ package tree
 // functions) and to go-mysql-server's in-memory types.JSONDocument of the same value.
 
 import (
-	"context"
+	"encoding/json"
+	"flag"
 	"fmt"
 	"os"
+	"path/filepath"
+	"sort"
 	"strings"
 	"testing"
 
@@ -20,7 +23,17 @@ import (
 	"github.com/dolthub/dolt/go/zzverif/vh"
 )
 
-const c17DocRule = "documents from a grammar of nested objects/arrays/scalars (depth<=6, keys from an alphabet with shared prefixes and keys that need quoting, strings with quotes/backslashes/escapes/multi-byte runes; size classes tiny/mid/large, large = padded to span several chunks); a chain of 1-5 operations Lookup/Insert/Set/Replace/Remove/ArrayInsert/ArrayAppend with paths derived from the current document (existing locations, new members, index==len, index>len, last, last-N, [0] on non-arrays, missing parents, paths into scalars, $); each operation is applied to the stored IndexedJsonDocument and to the in-memory JSONDocument and result document, changed flag and error presence are compared; the stored result must also be the normalized text of the expected value; Compare/Type/JsonType of first and last document are compared as well. Non-trivial: the stored document has >=2 chunks and at least one operation of the chain addresses a location beyond the first chunk boundary and either finds a value or changes the document; distinct by (document hash, operation list)."
+const c17DocRule = "documents from a grammar of nested objects/arrays/scalars (depth<=6, keys from an alphabet with shared prefixes and keys that need quoting, strings with quotes/backslashes/escapes/multi-byte runes; size classes tiny/mid/large, large = padded to span several chunks); a chain of 1-5 operations Lookup/Insert/Set/Replace/Remove/ArrayInsert/ArrayAppend with paths derived from the current document (existing locations, new members, index==len, index>len, last, last-N, [0] on non-arrays, missing parents, paths into scalars, $); each operation is applied to a clone of the stored IndexedJsonDocument and to the in-memory JSONDocument; result document, changed flag and error presence are compared; the stored result must also be the normalized text of the expected value; Compare/JsonType of first and last document are compared as well. Non-trivial: the stored document has >=2 chunks and at least one operation of the chain addresses a location beyond the first chunk boundary and either finds a value or changes the document; distinct by (document hash, operation list)."
+
+// Findings of this check (ids as they would appear in known_findings.json). A shape that
+// reproduces a finding listed there as open is not generated (so the rest of the space stays
+// checked) and its pinned reproduction reports KNOWN-FINDING instead of failing.
+const (
+	c17FLastN      = "C17-last-minus-n"         // [last-N] path legs are rejected by the stored implementation
+	c17FWrapAppend = "C17-autowrap-append"      // [N>=1] on a non-array that is the root or an array element: Set/Insert are silent no-ops
+	c17FEmptyArray = "C17-empty-array-index"    // Set/Insert at an index of an empty array: panic (root) or silent no-op (nested)
+	c17FMissingIdx = "C17-missing-parent-index" // Set/Insert through a missing location followed by an index leg: internal error
+)
 
 // c17Excluded reports whether a generator shape is switched off because it reproduces a
 // finding that is listed as open in known_findings.json (or named in VERIF_C17_EXCLUDE, a
@@ -38,22 +51,175 @@ func c17Excluded(id string) bool {
 }
 
 type c17Op struct {
-	kind string
-	path string
-	val  interface{}
+	Kind string      `json:"kind"`
+	Path string      `json:"path"`
+	Val  interface{} `json:"val,omitempty"`
 }
 
+func (o c17Op) hasVal() bool { return o.Kind != "Lookup" && o.Kind != "Remove" }
+
 func (o c17Op) String() string {
-	if o.kind == "Lookup" || o.kind == "Remove" {
-		return fmt.Sprintf("%s(%s)", o.kind, o.path)
+	if !o.hasVal() {
+		return fmt.Sprintf("%s(%s)", o.Kind, o.Path)
 	}
-	return fmt.Sprintf("%s(%s, %s)", o.kind, o.path, verifJShort(verifJMarshal(o.val)))
+	return fmt.Sprintf("%s(%s, %s)", o.Kind, o.Path, verifJShort(verifJMarshal(o.Val)))
 }
 
 var c17Kinds = []string{"Lookup", "Insert", "Set", "Replace", "Remove", "ArrayInsert", "ArrayAppend", "Lookup", "Set", "Remove", "Insert"}
 
-func c17GenPath(t *rapid.T, cur interface{}, keys []string, kind string) string {
+// c17Shape says what a path meets in a document.
+type c17Shape struct {
+	traits      []string
+	afterMiss   bool // legs continue after a location that does not exist
+	afterMissIx bool // … and one of those legs is an index
+	wrap0Mid    bool // [0]/[last] applied to a non-array, followed by further legs
+	wrapNFinal  bool // final leg [N>=1] applied to a non-array …
+	wrapNMember bool // … that is an object member (the one auto-wrap the stored implementation has)
+	emptyArrIdx bool // an index leg applied to an empty array
+	lastN       bool // a last-N leg
+	quoteKey    bool // a member name containing "
+	plainHit    bool // every leg is an existing member / element
+	target      interface{}
+}
+
+func c17ShapeOf(doc interface{}, legs []verifJLeg) c17Shape {
+	var sh c17Shape
+	at := doc
+	missing := false
+	sh.plainHit = true
+	prevKey := false
+	for li, l := range legs {
+		final := li == len(legs)-1
+		if missing {
+			sh.traits = append(sh.traits, "after_miss")
+			sh.afterMiss = true
+			if l.isIdx || l.raw != "" {
+				sh.afterMissIx = true
+			}
+			continue
+		}
+		if l.isIdx || l.raw != "" {
+			a, isArr := at.([]interface{})
+			idx, under := l.idx, false
+			n := 1
+			if isArr {
+				n = len(a)
+			}
+			pre := "idx"
+			if l.raw != "" {
+				k := 0
+				pre = "last"
+				if strings.HasPrefix(l.raw, "last-") {
+					fmt.Sscanf(l.raw[5:], "%d", &k)
+					pre = "lastN"
+					sh.lastN = true
+				}
+				idx = n - 1 - k
+				if idx < 0 {
+					under = true
+					if isArr && n == 0 && k == 0 {
+						under = false // [last] of an empty array is index 0
+						idx = 0
+					}
+				}
+			}
+			if !isArr {
+				sh.plainHit = false
+				switch {
+				case under:
+					sh.traits = append(sh.traits, pre+"_wrap_under")
+					missing = true
+				case idx == 0:
+					sh.traits = append(sh.traits, pre+"_wrap0")
+					if !final {
+						sh.wrap0Mid = true
+					}
+				default:
+					sh.traits = append(sh.traits, pre+"_wrapN")
+					missing = true
+					if final {
+						sh.wrapNFinal = true
+						sh.wrapNMember = prevKey
+					}
+				}
+				prevKey = false
+				continue
+			}
+			if n == 0 {
+				sh.emptyArrIdx = true
+			}
+			switch {
+			case under:
+				sh.traits = append(sh.traits, pre+"_under")
+				missing = true
+			case idx < n:
+				sh.traits = append(sh.traits, pre+"_in")
+				at = a[idx]
+			case idx == n:
+				sh.traits = append(sh.traits, pre+"_eqlen")
+				missing = true
+			default:
+				sh.traits = append(sh.traits, pre+"_gtlen")
+				missing = true
+			}
+			if missing {
+				sh.plainHit = false
+			}
+			prevKey = false
+			continue
+		}
+		if strings.Contains(l.key, `"`) {
+			sh.quoteKey = true
+		}
+		prevKey = true
+		switch v := at.(type) {
+		case map[string]interface{}:
+			if c, ok := v[l.key]; ok {
+				sh.traits = append(sh.traits, "key_hit")
+				at = c
+			} else {
+				sh.traits = append(sh.traits, "key_miss")
+				missing = true
+			}
+		case []interface{}:
+			sh.traits = append(sh.traits, "key_on_array")
+			missing = true
+		default:
+			sh.traits = append(sh.traits, "key_on_scalar")
+			missing = true
+		}
+		if missing {
+			sh.plainHit = false
+		}
+	}
+	if len(sh.traits) == 0 {
+		sh.traits = []string{"root"}
+	}
+	if sh.plainHit {
+		sh.target = at
+	}
+	return sh
+}
+
+// c17ShapeExcluded names the open finding (if any) that (kind, shape) would reproduce.
+func c17ShapeExcluded(kind string, sh c17Shape) string {
+	mut := kind == "Set" || kind == "Insert"
+	switch {
+	case sh.lastN && c17Excluded(c17FLastN):
+		return c17FLastN
+	case mut && sh.wrapNFinal && !sh.wrapNMember && c17Excluded(c17FWrapAppend):
+		return c17FWrapAppend
+	case mut && sh.emptyArrIdx && c17Excluded(c17FEmptyArray):
+		return c17FEmptyArray
+	case mut && sh.afterMissIx && c17Excluded(c17FMissingIdx):
+		return c17FMissingIdx
+	}
+	return ""
+}
+
+func c17GenLegs(t *rapid.T, cur interface{}, keys []string) (legs, existing []verifJLeg) {
 	legs, at := verifJWalk(t, cur, 6)
+	existing = append([]verifJLeg{}, legs...)
 	switch v := rapid.IntRange(0, 13).Draw(t, "pathvariant"); {
 	case v <= 4:
 		// existing location
@@ -121,7 +287,7 @@ func c17GenPath(t *rapid.T, cur interface{}, keys []string, kind string) string 
 			legs[i].quote = true
 		}
 	}
-	return verifJRenderPath(legs)
+	return legs, existing
 }
 
 func c17GenOpValue(t *rapid.T, keys []string) interface{} {
@@ -153,27 +319,220 @@ func c17Beyond(root *Node, path string) bool {
 	return err == nil && cmp > 0
 }
 
-func c17Case(rt *rapid.T, rec *vh.Recorder) {
+// c17Mismatch is a disagreement between the stored and the in-memory implementation.
+type c17Mismatch struct {
+	what   string // short class of the disagreement (error, changed, result, text, found …)
+	op     string // operation kind
+	traits string
+	msg    string
+}
+
+func c17Recover(f func()) (panicked string) {
+	defer func() {
+		if r := recover(); r != nil {
+			panicked = fmt.Sprint(r)
+			if len(panicked) > 300 {
+				panicked = panicked[:300]
+			}
+		}
+	}()
+	f()
+	return ""
+}
+
+// c17Apply runs one operation on both implementations. It returns the new model value, the new
+// stored document, whether the operation found/changed something, and a mismatch (nil when the
+// implementations agree). sh may be the zero value (pinned cases): then everything is compared.
+func c17Apply(ctx *sql.Context, ns NodeStore, sIdx IndexedJsonDocument, cur interface{}, op c17Op, sh c17Shape, classes map[string]bool) (interface{}, IndexedJsonDocument, bool, *c17Mismatch) {
+	kind, path := op.Kind, op.Path
+	tr := strings.Join(sh.traits, ",")
+	mm := func(what, format string, a ...any) *c17Mismatch {
+		return &c17Mismatch{what: what, op: kind, traits: tr, msg: fmt.Sprintf("%s on %s [path meets: %s]: ", op, verifJShort(verifJMarshal(cur)), tr) + fmt.Sprintf(format, a...)}
+	}
+	memDoc := types.JSONDocument{Val: types.DeepCopyJson(cur)}
+	var valWrap sql.JSONWrapper
+	if op.hasVal() {
+		valWrap = types.JSONDocument{Val: types.DeepCopyJson(op.Val)}
+	}
+	// Shapes on which go-mysql-server's in-memory implementation is not a usable reference
+	// (see the assumptions of the evidence): only error presence is compared there.
+	refResultUsable := !sh.afterMiss && !sh.wrap0Mid
+
+	if kind == "Lookup" {
+		// every SQL function reaches Lookup through types.LookupJSONValue
+		var sRes, mRes sql.JSONWrapper
+		var sErr, mErr error
+		sPanic := c17Recover(func() { sRes, sErr = types.LookupJSONValue(ctx, sIdx, path) })
+		mPanic := c17Recover(func() { mRes, mErr = types.LookupJSONValue(ctx, memDoc, path) })
+		if sPanic != "" {
+			return cur, sIdx, false, mm("panic", "stored implementation panicked: %s (in-memory panic: %q)", sPanic, mPanic)
+		}
+		if mPanic != "" {
+			// the in-memory reference itself crashes on this path: nothing to compare with
+			classes["reference_panic"] = true
+			return cur, sIdx, false, nil
+		}
+		if sh.quoteKey {
+			// the jsonpath library behind the in-memory Lookup does not understand \" in a member
+			// name; the expected answer is known only when every leg exists
+			classes["lookup_quote_key"] = true
+			if !sh.plainHit {
+				return cur, sIdx, false, nil
+			}
+			if sErr != nil || sRes == nil {
+				return cur, sIdx, false, mm("found", "stored Lookup err=%v found=%v, but every leg of the path exists", sErr, sRes != nil)
+			}
+			sv, err := verifJInterface(ctx, sRes)
+			if err != nil || !verifJEqual(sv, sh.target) {
+				return cur, sIdx, false, mm("result", "stored Lookup = %s (err %v), the document has %s there", verifJShort(verifJMarshal(sv)), err, verifJShort(verifJMarshal(sh.target)))
+			}
+			classes["lookup_hit"] = true
+			return cur, sIdx, true, nil
+		}
+		if (sErr != nil) != (mErr != nil) {
+			return cur, sIdx, false, mm("error", "stored err=%v, in-memory err=%v", sErr, mErr)
+		}
+		if sErr != nil {
+			classes["lookup_error"] = true
+			return cur, sIdx, false, nil
+		}
+		sNil, mNil := sRes == nil, mRes == nil
+		if sNil != mNil {
+			return cur, sIdx, false, mm("found", "stored found=%v, in-memory found=%v", !sNil, !mNil)
+		}
+		if sNil {
+			classes["lookup_miss"] = true
+			return cur, sIdx, false, nil
+		}
+		sv, err1 := verifJInterface(ctx, sRes)
+		mv, err2 := verifJInterface(ctx, mRes)
+		if err1 != nil || err2 != nil {
+			return cur, sIdx, false, mm("decode", "cannot decode results: stored %v / in-memory %v", err1, err2)
+		}
+		if !verifJEqual(sv, mv) {
+			return cur, sIdx, false, mm("result", "\n stored    %s\n in-memory %s", verifJShort(verifJMarshal(sv)), verifJShort(verifJMarshal(mv)))
+		}
+		classes["lookup_hit"] = true
+		return cur, sIdx, true, nil
+	}
+
+	run := func(d types.MutableJSON) (r types.MutableJSON, ch bool, err error, panicked string) {
+		panicked = c17Recover(func() {
+			switch kind {
+			case "Insert":
+				r, ch, err = d.Insert(ctx, path, valWrap)
+			case "Set":
+				r, ch, err = d.Set(ctx, path, valWrap)
+			case "Replace":
+				r, ch, err = d.Replace(ctx, path, valWrap)
+			case "Remove":
+				r, ch, err = d.Remove(ctx, path)
+			case "ArrayInsert":
+				r, ch, err = d.ArrayInsert(ctx, path, valWrap)
+			case "ArrayAppend":
+				r, ch, err = d.ArrayAppend(ctx, path, valWrap)
+			}
+		})
+		return
+	}
+	// every SQL function clones the document before mutating it (function/json.MutableJsonDoc)
+	sRes, sCh, sErr, sPanic := run(sIdx.Clone(ctx).(types.MutableJSON))
+	mRes, mCh, mErr, mPanic := run(memDoc)
+	if sPanic != "" {
+		return cur, sIdx, false, mm("panic", "stored implementation panicked: %s (in-memory panic: %q)", sPanic, mPanic)
+	}
+	if mPanic != "" {
+		classes["reference_panic"] = true
+		return cur, sIdx, false, nil
+	}
+	if (sErr != nil) != (mErr != nil) {
+		return cur, sIdx, false, mm("error", "stored err=%v, in-memory err=%v", sErr, mErr)
+	}
+	if sErr != nil {
+		classes["op_error"] = true
+		return cur, sIdx, false, nil
+	}
+	if !refResultUsable {
+		classes["reference_unusable"] = true
+		return cur, sIdx, false, nil
+	}
+	sv, err1 := verifJInterface(ctx, sRes)
+	mv, err2 := verifJInterface(ctx, mRes)
+	if err1 != nil || err2 != nil {
+		return cur, sIdx, false, mm("decode", "cannot decode results: stored %v / in-memory %v", err1, err2)
+	}
+	if !verifJEqual(sv, mv) {
+		return cur, sIdx, false, mm("result", "changed stored=%v in-memory=%v\n stored    %s\n in-memory %s", sCh, mCh, verifJShort(verifJMarshal(sv)), verifJShort(verifJMarshal(mv)))
+	}
+	if sCh != mCh {
+		return cur, sIdx, false, mm("changed", "same result document but changed flag stored=%v in-memory=%v", sCh, mCh)
+	}
+	if c, err := types.CompareJSON(ctx, sRes, mRes); err != nil || c != 0 {
+		return cur, sIdx, false, mm("compare", "CompareJSON(stored result, in-memory result) = %d, %v", c, err)
+	}
+	if !sCh && !verifJEqual(sv, cur) {
+		return cur, sIdx, false, mm("flag", "changed=false but the document changed to %s", verifJShort(verifJMarshal(sv)))
+	}
+	want := verifJMarshal(mv)
+	if idx, ok := sRes.(IndexedJsonDocument); ok {
+		b, err := idx.GetBytes(ctx)
+		if err != nil {
+			return cur, sIdx, false, mm("decode", "GetBytes of the stored result: %v", err)
+		}
+		if string(b) != string(want) {
+			return cur, sIdx, false, mm("text", "stored result is JSON-equal but not the normalized text\n stored %s\n want   %s", verifJShort(b), verifJShort(want))
+		}
+		sIdx = idx
+		classes["indexed_result"] = true
+	} else {
+		// the operation fell back to the in-memory implementation; store the result again the
+		// way writing it to a table and reading it back would
+		var err error
+		sIdx, err = verifJStore(ctx, ns, mv)
+		if err != nil {
+			return cur, sIdx, false, mm("decode", "re-storing the result: %v", err)
+		}
+		classes["fallback_result"] = true
+	}
+	if sCh {
+		classes["changed:"+kind] = true
+	} else {
+		classes["noop:"+kind] = true
+	}
+	return mv, sIdx, sCh, nil
+}
+
+type c17CaseFile struct {
+	Doc json.RawMessage `json:"doc"`
+	Ops []c17Op         `json:"ops"`
+}
+
+// c17Case generates and checks one case. A disagreement is returned, not reported, so that the
+// development census can bucket disagreements; TestVerif_C17 turns it into a failure.
+func c17Case(rt *rapid.T, rec *vh.Recorder) (*c17Mismatch, *c17CaseFile) {
 	ctx := sql.NewEmptyContext()
 	ns := NewTestNodeStore()
 	keys := verifJKeys
 	doc, class := verifJDoc(rt, keys)
 	docBytes := verifJMarshal(doc)
+	cf := &c17CaseFile{Doc: docBytes}
+	gen := func(what, format string, a ...any) *c17Mismatch {
+		return &c17Mismatch{what: what, op: "-", traits: "-", msg: fmt.Sprintf(format, a...)}
+	}
 
 	stored, err := verifJStore(ctx, ns, doc)
 	if err != nil {
-		rt.Fatalf("SerializeJsonToAddr(%s): %v", verifJShort(docBytes), err)
+		return gen("store", "SerializeJsonToAddr(%s): %v", verifJShort(docBytes), err), cf
 	}
 	// the stored bytes are the normalized text
 	got, err := stored.GetBytes(ctx)
 	if err != nil || string(got) != string(docBytes) {
-		rt.Fatalf("stored document text differs from the marshalled value: err=%v\n got %s\nwant %s", err, verifJShort(got), verifJShort(docBytes))
+		return gen("store", "stored document text differs from the marshalled value: err=%v\n got %s\nwant %s", err, verifJShort(got), verifJShort(docBytes)), cf
 	}
 	nchunks := verifJChunks(stored.m.Root)
 
 	cur := types.DeepCopyJson(doc) // model value
-	var scur types.MutableJSON = stored
-	var sIdx = stored
+	sIdx := stored
 	nops := rapid.IntRange(1, 5).Draw(rt, "nops")
 	var ops []string
 	classes := map[string]bool{"size=" + class: true, fmt.Sprintf("chunks=%d", min(nchunks, 4)): true}
@@ -181,143 +540,44 @@ func c17Case(rt *rapid.T, rec *vh.Recorder) {
 
 	for i := 0; i < nops; i++ {
 		kind := rapid.SampledFrom(c17Kinds).Draw(rt, "op")
-		path := c17GenPath(rt, cur, keys, kind)
-		op := c17Op{kind: kind, path: path}
-		if kind != "Lookup" && kind != "Remove" {
-			op.val = c17GenOpValue(rt, keys)
+		legs, existing := c17GenLegs(rt, cur, keys)
+		sh := c17ShapeOf(cur, legs)
+		if f := c17ShapeExcluded(kind, sh); f != "" {
+			// reproduces an open finding: use the plain existing location instead
+			classes["excluded:"+f] = true
+			legs = existing
+			sh = c17ShapeOf(cur, legs)
 		}
+		op := c17Op{Kind: kind, Path: verifJRenderPath(legs)}
+		if op.hasVal() {
+			op.Val = c17GenOpValue(rt, keys)
+		}
+		cf.Ops = append(cf.Ops, op)
 		ops = append(ops, op.String())
-		beyond := c17Beyond(sIdx.m.Root, path)
-
-		memDoc := types.JSONDocument{Val: types.DeepCopyJson(cur)}
-		var valWrap sql.JSONWrapper
-		if op.val != nil || (kind != "Lookup" && kind != "Remove") {
-			valWrap = types.JSONDocument{Val: types.DeepCopyJson(op.val)}
+		beyond := c17Beyond(sIdx.m.Root, op.Path)
+		for _, tr := range sh.traits {
+			classes["path:"+tr] = true
 		}
-
-		if kind == "Lookup" {
-			sRes, sErr := sIdx.Lookup(ctx, path)
-			mRes, mErr := memDoc.Lookup(ctx, path)
-			if (sErr != nil) != (mErr != nil) {
-				rt.Fatalf("Lookup(%s) on %s: stored err=%v, in-memory err=%v", path, verifJShort(verifJMarshal(cur)), sErr, mErr)
+		var effective bool
+		var m *c17Mismatch
+		cur, sIdx, effective, m = c17Apply(ctx, ns, sIdx, cur, op, sh, classes)
+		if m != nil {
+			if len(ops) > 1 {
+				m.msg += fmt.Sprintf("\n (after %s)", strings.Join(ops[:len(ops)-1], "; "))
 			}
-			if sErr != nil {
-				classes["lookup_error"] = true
-				continue
-			}
-			sNil, mNil := sRes == nil, mRes == nil
-			if sNil != mNil {
-				rt.Fatalf("Lookup(%s) on %s: stored found=%v, in-memory found=%v", path, verifJShort(verifJMarshal(cur)), !sNil, !mNil)
-			}
-			if sNil {
-				classes["lookup_miss"] = true
-				continue
-			}
-			sv, err1 := verifJInterface(ctx, sRes)
-			mv, err2 := verifJInterface(ctx, mRes)
-			if err1 != nil || err2 != nil {
-				rt.Fatalf("Lookup(%s): cannot decode results: %v / %v", path, err1, err2)
-			}
-			if !verifJEqual(sv, mv) {
-				rt.Fatalf("Lookup(%s) on %s:\n stored    %s\n in-memory %s", path, verifJShort(verifJMarshal(cur)), verifJShort(verifJMarshal(sv)), verifJShort(verifJMarshal(mv)))
-			}
-			classes["lookup_hit"] = true
-			if beyond {
-				nontrivial = true
-				classes["beyond_first_chunk"] = true
-			}
-			continue
+			return m, cf
 		}
-
-		var sRes, mRes types.MutableJSON
-		var sCh, mCh bool
-		var sErr, mErr error
-		switch kind {
-		case "Insert":
-			sRes, sCh, sErr = sIdx.Insert(ctx, path, valWrap)
-			mRes, mCh, mErr = memDoc.Insert(ctx, path, valWrap)
-		case "Set":
-			sRes, sCh, sErr = sIdx.Set(ctx, path, valWrap)
-			mRes, mCh, mErr = memDoc.Set(ctx, path, valWrap)
-		case "Replace":
-			sRes, sCh, sErr = sIdx.Replace(ctx, path, valWrap)
-			mRes, mCh, mErr = memDoc.Replace(ctx, path, valWrap)
-		case "Remove":
-			sRes, sCh, sErr = sIdx.Remove(ctx, path)
-			mRes, mCh, mErr = memDoc.Remove(ctx, path)
-		case "ArrayInsert":
-			sRes, sCh, sErr = sIdx.ArrayInsert(ctx, path, valWrap)
-			mRes, mCh, mErr = memDoc.ArrayInsert(ctx, path, valWrap)
-		case "ArrayAppend":
-			sRes, sCh, sErr = sIdx.ArrayAppend(ctx, path, valWrap)
-			mRes, mCh, mErr = memDoc.ArrayAppend(ctx, path, valWrap)
+		if effective && beyond {
+			nontrivial = true
+			classes["beyond_first_chunk"] = true
 		}
-		where := fmt.Sprintf("%s on %s (after %v)", op, verifJShort(verifJMarshal(cur)), ops[:len(ops)-1])
-		if (sErr != nil) != (mErr != nil) {
-			rt.Fatalf("%s: stored err=%v, in-memory err=%v", where, sErr, mErr)
-		}
-		if sErr != nil {
-			classes["op_error"] = true
-			continue
-		}
-		if sCh != mCh {
-			rt.Fatalf("%s: changed flag stored=%v in-memory=%v", where, sCh, mCh)
-		}
-		sv, err1 := verifJInterface(ctx, sRes)
-		mv, err2 := verifJInterface(ctx, mRes)
-		if err1 != nil || err2 != nil {
-			rt.Fatalf("%s: cannot decode results: stored %v / in-memory %v", where, err1, err2)
-		}
-		if !verifJEqual(sv, mv) {
-			rt.Fatalf("%s:\n stored    %s\n in-memory %s", where, verifJShort(verifJMarshal(sv)), verifJShort(verifJMarshal(mv)))
-		}
-		if c, err := types.CompareJSON(ctx, sRes, mRes); err != nil || c != 0 {
-			rt.Fatalf("%s: CompareJSON(stored result, in-memory result) = %d, %v", where, c, err)
-		}
-		if !sCh && !verifJEqual(sv, cur) {
-			rt.Fatalf("%s: changed=false but the document changed to %s", where, verifJShort(verifJMarshal(sv)))
-		}
-		want := verifJMarshal(mv)
-		if idx, ok := sRes.(IndexedJsonDocument); ok {
-			b, err := idx.GetBytes(ctx)
-			if err != nil {
-				rt.Fatalf("%s: GetBytes of the stored result: %v", where, err)
-			}
-			if string(b) != string(want) {
-				rt.Fatalf("%s: stored result is JSON-equal but not the normalized text\n stored %s\n want   %s", where, verifJShort(b), verifJShort(want))
-			}
-			sIdx = idx
-			scur = idx
-			classes["indexed_result"] = true
-		} else {
-			// the operation fell back to the in-memory implementation; store the result again
-			// the way writing it to a table and reading it back would
-			sIdx, err = verifJStore(ctx, ns, mv)
-			if err != nil {
-				rt.Fatalf("%s: re-storing the result: %v", where, err)
-			}
-			scur = sIdx
-			classes["fallback_result"] = true
-		}
-		if sCh {
-			classes["changed:"+kind] = true
-			if beyond {
-				nontrivial = true
-				classes["beyond_first_chunk"] = true
-			}
-		} else {
-			classes["noop:"+kind] = true
-		}
-		cur = mv
 	}
-	_ = scur
 
-	// Compare / Type / JsonType of first and last document
-	first := types.JSONDocument{Val: types.DeepCopyJson(doc)}
+	// Compare / JsonType of first and last document
 	last := types.JSONDocument{Val: types.DeepCopyJson(cur)}
-	wantCmp, err := types.CompareJSON(ctx, first.Val, last.Val)
+	wantCmp, err := types.CompareJSON(ctx, types.DeepCopyJson(doc), last.Val)
 	if err != nil {
-		rt.Fatalf("CompareJSON(model): %v", err)
+		return gen("compare", "CompareJSON(model): %v", err), cf
 	}
 	for _, c := range []struct {
 		name  string
@@ -325,10 +585,10 @@ func c17Case(rt *rapid.T, rec *vh.Recorder) {
 	}{{"stored-vs-stored", sIdx}, {"stored-vs-memory", last}, {"stored-vs-raw-value", last.Val}} {
 		gotCmp, err := stored.Compare(ctx, c.other)
 		if err != nil {
-			rt.Fatalf("Compare %s: %v (ops %v)", c.name, err, ops)
+			return gen("compare", "Compare %s: %v (ops %v)", c.name, err, ops), cf
 		}
 		if (gotCmp == 0) != (wantCmp == 0) || (gotCmp < 0) != (wantCmp < 0) {
-			rt.Fatalf("Compare %s: stored says %d, in-memory CompareJSON says %d\n first %s\n last  %s", c.name, gotCmp, wantCmp, verifJShort(docBytes), verifJShort(verifJMarshal(cur)))
+			return gen("compare:"+c.name, "Compare %s: stored says %d, in-memory CompareJSON says %d\n first %s\n last  %s", c.name, gotCmp, wantCmp, verifJShort(docBytes), verifJShort(verifJMarshal(cur))), cf
 		}
 	}
 	if wantCmp != 0 {
@@ -336,30 +596,143 @@ func c17Case(rt *rapid.T, rec *vh.Recorder) {
 	}
 	jt, err := stored.JsonType(ctx)
 	if err != nil {
-		rt.Fatalf("JsonType: %v", err)
+		return gen("type", "JsonType: %v", err), cf
 	}
-	wantJT := map[string]string{"nil": "NULL", "bool": "BOOLEAN", "float64": "DOUBLE", "string": "STRING", "[]interface {}": "ARRAY", "map[string]interface {}": "OBJECT"}[fmt.Sprintf("%T", doc)]
-	if doc == nil {
-		wantJT = "NULL"
+	wantJT := "NULL"
+	switch doc.(type) {
+	case bool:
+		wantJT = "BOOLEAN"
+	case float64:
+		wantJT = "DOUBLE"
+	case string:
+		wantJT = "STRING"
+	case []interface{}:
+		wantJT = "ARRAY"
+	case map[string]interface{}:
+		wantJT = "OBJECT"
 	}
 	if jt != wantJT {
-		rt.Fatalf("JsonType of %s = %q, want %q", verifJShort(docBytes), jt, wantJT)
+		return gen("type", "JsonType of %s = %q, want %q", verifJShort(docBytes), jt, wantJT), cf
 	}
 
 	var cl []string
 	for c := range classes {
 		cl = append(cl, c)
 	}
+	sort.Strings(cl)
 	desc := fmt.Sprintf("doc %016x (%s, %d bytes, %d chunks) ops %s", verifJHash(docBytes), class, len(docBytes), nchunks, strings.Join(ops, "; "))
-	rec.Case(desc, nontrivial, cl...)
+	if rec != nil {
+		rec.Case(desc, nontrivial, cl...)
+	}
+	return nil, cf
+}
+
+// c17RunFile replays a (document, operations) case without shape knowledge: everything is compared.
+func c17RunFile(cf *c17CaseFile) *c17Mismatch {
+	ctx := sql.NewEmptyContext()
+	ns := NewTestNodeStore()
+	var doc interface{}
+	if err := json.Unmarshal(cf.Doc, &doc); err != nil {
+		return &c17Mismatch{what: "file", msg: err.Error()}
+	}
+	sIdx, err := verifJStore(ctx, ns, doc)
+	if err != nil {
+		return &c17Mismatch{what: "store", msg: err.Error()}
+	}
+	cur := doc
+	for _, op := range cf.Ops {
+		var m *c17Mismatch
+		cur, sIdx, _, m = c17Apply(ctx, ns, sIdx, cur, op, c17Shape{}, map[string]bool{})
+		if m != nil {
+			return m
+		}
+	}
+	return nil
 }
 
 func TestVerif_C17(t *testing.T) {
 	rec := vh.NewRecorder("C17", "docs", "exploration", c17DocRule,
 		"numbers are float64 (what types.JSON.Convert produces for JSON text); object keys come from a fixed alphabet without backslashes or control characters",
-		"unquoted path members are ASCII identifiers; every other member name is written quoted with \\\" escaping")
+		"unquoted path members are ASCII identifiers; every other member name is written quoted with \\\" escaping",
+		"documents are cloned before a mutation, as function/json.MutableJsonDoc does for every SQL function (IndexedJsonDocument shares its cached decoded value with in-memory fallbacks otherwise)",
+		"lookups go through types.LookupJSONValue like every SQL function (Lookup(\"$\") is never called directly)",
+		"where go-mysql-server's in-memory implementation is itself not usable as a reference only error presence is compared: paths that continue after a location that does not exist (it ignores the remaining legs), [0]/[last] on a non-array followed by further legs (it drops them), Lookup with \\\" in a member name (its jsonpath library cannot parse it; there the expected value is taken from the document when every leg exists), and paths on which it panics")
 	defer rec.Write(t)
-	vh.Check(t, "docs", 1500, 6000, func(rt *rapid.T) { c17Case(rt, rec) })
+	vh.Check(t, "docs", 1500, 6000, func(rt *rapid.T) {
+		if m, _ := c17Case(rt, rec); m != nil {
+			rt.Fatalf("%s", m.msg)
+		}
+	})
 }
 
-var _ = context.Background
+// TestVerifDev_C17Census is a development aid (never selected by the registry): it runs many
+// cases, does not stop at a disagreement and prints the disagreements bucketed by
+// (kind of disagreement, operation, what the path meets) with one short example each.
+// VERIF_C17_DUMP=<dir> also writes one replayable case file per bucket.
+func TestVerifDev_C17Census(t *testing.T) {
+	if os.Getenv("VERIF_C17_CENSUS") == "" {
+		t.Skip("development aid; set VERIF_C17_CENSUS=<cases>")
+	}
+	n := 3000
+	fmt.Sscanf(os.Getenv("VERIF_C17_CENSUS"), "%d", &n)
+	type bucket struct {
+		n   int
+		msg string
+		cf  *c17CaseFile
+	}
+	buckets := map[string]*bucket{}
+	_ = flag.Set("rapid.checks", fmt.Sprint(n))
+	_ = flag.Set("rapid.seed", fmt.Sprint(vh.Seed()))
+	rapid.Check(t, func(rt *rapid.T) {
+		m, cf := c17Case(rt, nil)
+		if m == nil {
+			return
+		}
+		tr := strings.Split(m.traits, ",")
+		if len(tr) > 2 {
+			tr = tr[len(tr)-2:]
+		}
+		k := m.what + " | " + m.op + " | " + strings.Join(tr, ",")
+		b := buckets[k]
+		if b == nil {
+			b = &bucket{}
+			buckets[k] = b
+		}
+		b.n++
+		if b.msg == "" || len(m.msg) < len(b.msg) {
+			b.msg = m.msg
+			b.cf = cf
+		}
+	})
+	var ks []string
+	for k := range buckets {
+		ks = append(ks, k)
+	}
+	sort.Strings(ks)
+	for i, k := range ks {
+		fmt.Printf("=== #%d %5d  %s\n      %s\n", i, buckets[k].n, k, buckets[k].msg)
+		if d := os.Getenv("VERIF_C17_DUMP"); d != "" {
+			b, _ := json.Marshal(buckets[k].cf)
+			_ = os.WriteFile(filepath.Join(d, fmt.Sprintf("case%d.json", i)), b, 0o644)
+		}
+	}
+}
+
+// TestVerifDev_C17Replay replays a case file written by the census (development aid).
+func TestVerifDev_C17Replay(t *testing.T) {
+	p := os.Getenv("VERIF_C17_CASE")
+	if p == "" {
+		t.Skip("development aid; set VERIF_C17_CASE=<file>")
+	}
+	b, err := os.ReadFile(p)
+	if err != nil {
+		t.Fatal(err)
+	}
+	var cf c17CaseFile
+	if err := json.Unmarshal(b, &cf); err != nil {
+		t.Fatal(err)
+	}
+	if m := c17RunFile(&cf); m != nil {
+		t.Fatalf("%s", m.msg)
+	}
+}
